@@ -19,7 +19,7 @@ RULE = ('Noll indices 1..231 (quick) / 1..1326 (thorough) enumerated completely 
 ASSUMPTIONS = ['the sign of sine modes is not pinned by the property: +sin and -sin are both accepted (per mode)']
 PLAN = {'quick': {'gen': 8}, 'thorough': {'gen': 16, 'tests': 1, 'docs': 1}}
 REQUIRED_BUCKETS = ['index', 'value:normalized', 'value:unnormalized', 'gram:diag', 'gram:offdiag', 'coords:even', 'coords:odd',
-                    'coords:offcentre', 'support-only']
+                    'coords:offcentre', 'support-only', 'coords:shared', 'basis']
 REQUIRED_ANCHORS = ['probe:zernike_index', 'anchor:R', 'anchor:zernike', 'anchor:zernike_coordinates']
 REQUIRED_ORACLES = ['index=noll', 'index:bijective', 'mode=textbook', 'R(1)=1', 'gram=I', '|Z|<=1', 'rho=centroid-distance',
                     'origin=centroid', 'zero-outside', 'support-only']
@@ -140,6 +140,67 @@ def workload(ctx, lentil):
             ctx.close('R(1)=1', np.asarray(one, float) + np.zeros((1, 3)), np.ones((1, 3)), 64 * rm.EPS * max(cond, 1),
                       'R|rim', 'radial polynomial is not 1 at rho = 1', {'n': n, 'm': m}, scale=1.0)
 
+    # ---- one caller-owned coordinate system re-used for several masks; zernike_basis on sparse / unsorted mode lists ------
+    for i in range(ctx.count(40, 250)):
+        shape = gen.rshape(rng, 6, 18)
+        ii, jj = np.indices(shape)
+        r0, c0 = shape[0] / 2 + rng.uniform(-1, 1), shape[1] / 2 + rng.uniform(-1, 1)
+        rad = np.hypot(ii - r0, jj - c0)
+        rho = rad / rad.max()
+        theta = np.arctan2(ii - r0, jj - c0)
+        fr, ft = probe.fp_array(rho), probe.fp_array(theta)
+        rho_ref, theta_ref = rho.copy(), theta.copy()
+        masks = [gen.support(rng, shape) for _ in range(3)]
+        desc = {'shared-coordinates': list(shape), 'masks': [probe.fp_array(m)[:8] for m in masks]}
+        ctx.case(desc, ['coords:shared'])
+        for q, m in enumerate(masks):
+            j = int(rng.integers(2, 29))
+            normalize = bool(rng.random() < 0.5)
+            try:
+                got = np.asarray(lentil.zernike(m.astype(float), j, normalize=normalize, rho=rho, theta=theta), float)
+            except Exception as e:
+                ctx.check(False, 'mode=textbook', f'mode|shared-coords|raises={type(e).__name__}', str(e), desc)
+                continue
+            ref, par = ref_mode(j, rho_ref, theta_ref, normalize)
+            n_, m_, _ = _NOLL[j]
+            cond = float(sum(abs(c) for c in rm.radial_coeffs(n_, m_).values()))
+            cmp_mode(ctx, 'mode|shared-coords', 'mode on caller coordinates that were used before for another mask differs from the textbook mode',
+                     got, (ref * m).astype(float), par, dict(desc, mode=j, call=q), tol=16 * (n_ + 4) * rm.EPS * max(cond, 1.0) * np.sqrt(2 * n_ + 2),
+                     scale=1.0)
+        ctx.check(probe.fp_array(rho) == fr and probe.fp_array(theta) == ft, 'support-only', 'coords|caller-arrays-modified',
+                  'zernike modified the coordinate arrays supplied by the caller', desc)
+        # zernike_basis: any list of modes (sparse, unsorted, repeated radial/azimuthal orders), cube and vectorised form
+        k = int(rng.integers(1, 7))
+        style = int(rng.integers(0, 3))
+        if style == 0:
+            modes = sorted(rng.choice(np.arange(1, 46), size=k, replace=False).tolist())
+        elif style == 1:
+            modes = rng.permutation(rng.choice(np.arange(1, 46), size=k, replace=False)).tolist()
+        else:       # same azimuthal order, different radial orders next to each other (4, 11, 22 / 2, 8, 16 / ...)
+            m_az = int(rng.integers(0, 4))
+            fam = [j for j, (n2, m2, p2) in _NOLL.items() if j <= 66 and m2 == m_az]
+            modes = rng.permutation(rng.choice(fam, size=min(k + 1, len(fam)), replace=False)).tolist()
+        mask = masks[0].astype(float)
+        normalize = bool(rng.random() < 0.5)
+        supplied = bool(rng.random() < 0.5)
+        ctx.case({'basis': [int(x) for x in modes], 'shape': list(shape), 'supplied': supplied}, ['basis'])
+        try:
+            kwb = dict(rho=rho_ref.copy(), theta=theta_ref.copy()) if supplied else {}
+            B = np.asarray(Z.zernike_basis(mask, modes, normalize=normalize, **kwb), float)
+            Bv = np.asarray(Z.zernike_basis(mask, modes, vectorize=True, normalize=normalize, **kwb), float)
+            ok = B.shape == (len(modes),) + tuple(shape) and Bv.shape == (len(modes), shape[0] * shape[1])
+            worst = 0.0
+            if ok:
+                for row, j in zip(B, modes):
+                    single = np.asarray(lentil.zernike(mask, int(j), normalize=normalize, **kwb), float) + np.zeros(shape)
+                    worst = max(worst, float(np.max(np.abs(row - single))))
+                worst = max(worst, float(np.max(np.abs(Bv.reshape(B.shape) - B))))
+            ctx.check(ok and worst <= 1e-12 * max(1.0, float(np.max(np.abs(B))) if B.size else 1.0), 'mode=textbook', 'basis|rows',
+                      'zernike_basis rows are not the individual modes of the requested Noll indices', {'modes': [int(x) for x in modes],
+                                                                                                        'worst': worst})
+        except Exception as e:
+            ctx.check(False, 'mode=textbook', f'basis|raises={type(e).__name__}', str(e), {'modes': [int(x) for x in modes]})
+
     # ---- (iii) orthonormality on an exact quadrature ----------------------------------------------
     K, M = 40, 96
     x, wq = leggauss(K)
@@ -230,6 +291,9 @@ def workload(ctx, lentil):
         ctx.check(bool(np.all(za[~mask] == 0)), 'zero-outside', 'coords|zero-outside', 'mode is non-zero outside the mask',
                   dict(desc, mode=j))
         wts = mask * rng.uniform(0.1, 5.0, size=shape)
+        if i % 3 == 0:
+            # any non-zero value belongs to the support, however small or large (apodised tails, amplitudes in SI units)
+            wts = mask * 10.0 ** rng.uniform(-14, 6, size=shape) * rng.choice([-1, 1], size=shape)
         zb = np.asarray(lentil.zernike(wts, j), float)
         ctx.case(dict(desc, weighted=True, mode=j), ['support-only'])
         ctx.close('support-only', zb, za, 1e-13, 'coords|support-only',
